@@ -751,7 +751,7 @@ func init() {
 		ID: "C16",
 		Rule: "each case is either a stack of 1-4 prefix/gas/trace wrappers (optionally over a cache wrap and under a top-level trace) over a MemDB or IAVL parent " +
 			"pre-filled with neighbours of the composite prefix (prefix-1, prefix+1, prefix||00, prefix||ff, shorter, PrefixEnd) and a program of get/has/set/del/" +
-			"(partially) drained iterators, with a gas limit that is infinite, absolute, or the model's own total after k operations +-delta; or a direct ConsumeGas " +
+			"(partially) drained iterators - every prefix, key, value and bound slice carrying 0-16 bytes of spare poisoned capacity - with a gas limit that is infinite, absolute, or the model's own total after k operations +-delta; or a direct ConsumeGas " +
 			"sequence with amounts near 2^64. Non-trivial = an iteration whose range end comes from an 0xFF carry of the prefix, or a run whose exact gas total " +
 			"equals the limit, or a meter sequence that ends in out-of-gas/overflow/exactly at the limit; distinctness = hash of the program",
 		Gen:  genC16,
